@@ -478,11 +478,80 @@ def r5_cadence_rule(repo=None):
     return r
 
 
+def _show_lin(d):
+    parts = []
+    for k in sorted(d, key=str):
+        v = d[k]
+        if k == 1:
+            parts.append("%+d" % v)
+        else:
+            parts.append(("+" if v > 0 else "-") + ("" if abs(v) == 1 else "%d*" % abs(v)) + str(k))
+    return " ".join(parts).lstrip("+") or "0"
+
+
+def r7_truncation_siblings(repo=None):
+    """Contradiction rule: where a block is cut at a file boundary, the cut position is computed in two places (inside the loop
+    over blocks, when another block follows, and after it, for the last block).  Both describe the same quantity, so the
+    expressions that involve the boundary must be the same linear form."""
+    r = Rule("C04.R7", "a block is cut at a file boundary by the same expression in the in-loop and the after-loop computation (sibling)")
+    tu = cfront.lib(repo)
+    fn = tu.fn("digital_rf_create_rf_data_index")
+    loops = fn.find("ForStmt") + fn.find("WhileStmt")
+    loops.sort(key=lambda n: n.begin)
+    if len(loops) < 2:
+        raise AnalysisError("%s: the two loops over the block description were not found" % fn.name)
+    l1, l2 = loops[0], loops[1]
+    st = [(p_, n, rhs, k) for p_, n, rhs, k in clib.stores(fn) if p_ and rhs is not None and k == "=" and "->" not in p_
+          and "[" not in p_ and "*" not in p_]
+    in_loop = {}
+    after = {}
+    for p_, n, rhs, k in st:
+        if l1.begin <= n.begin <= l1.end:
+            in_loop.setdefault(p_, []).append((n, rhs))
+        elif l1.end < n.begin < l2.begin:
+            after.setdefault(p_, []).append((n, rhs))
+    variant = set(in_loop)            # assigned in the loop: not loop-invariant
+    n_checked = 0
+    for v in sorted(set(in_loop) & set(after)):
+        def boundary_forms(items):
+            out = {}
+            for n, rhs in items:
+                lf = clib.linform(rhs)
+                if lf is None:
+                    continue
+                scal = [k for k in lf if k != 1 and "[" not in k and "->" not in k and "*" not in k]
+                inv = [k for k in scal if k not in variant]
+                var_ = [k for k in scal if k in variant]
+                if inv and var_ and len(scal) == len([k for k in lf if k != 1]):
+                    out[tuple(sorted((str(k), c) for k, c in lf.items()))] = (n, lf)
+            return out
+        a, b = boundary_forms(in_loop[v]), boundary_forms(after[v])
+        if not a and not b:
+            continue
+        n_checked += 1
+        if set(a) == set(b):
+            r.ok("%s:%s %s `%s`" % (LIB, list(a.values())[0][0].line, fn.name, v), "cut at the boundary by %s both inside and after "
+                 "the loop" % " / ".join(_show_lin(x[1]) for x in a.values()))
+        else:
+            only_a = [a[k] for k in a if k not in b]
+            only_b = [b[k] for k in b if k not in a]
+            node = (only_a or only_b)[0][0]
+            r.violation(LIB, fn.name, "%s: in-loop %s vs after-loop %s" % (v, [_show_lin(x[1]) for x in a.values()],
+                        [_show_lin(x[1]) for x in b.values()]), "the position at which a block is cut at the file boundary is computed "
+                        "differently for a block followed by another block and for the last block: one of the two puts a sample into "
+                        "the wrong file (or drops it)", line=node.line)
+    if n_checked < 2:
+        raise AnalysisError("%s: %d boundary variables found, 2 (first and last index written) confirmed on the reference tree" % (
+            fn.name, n_checked))
+    r.guard(2)
+    return r
+
+
 def rules(repo=None):
     from . import c01
     return [lambda: r1_integer_only(repo), lambda: r2_pure_function(repo), lambda: r3_floor_ceil_pairing(repo),
             lambda: r4_new_file_on_name_change(repo), lambda: r5_cadence_rule(repo),
-            lambda: c01.r2_name_format_agreement(repo, rid="C04.R6")]
+            lambda: c01.r2_name_format_agreement(repo, rid="C04.R6"), lambda: r7_truncation_siblings(repo)]
 
 
 EXPLANATION = (
@@ -492,7 +561,8 @@ EXPLANATION = (
     "first sample are each obtained by the ceil helper from exactly the (second, millisecond) printed into the name / that "
     "plus one cadence; samples_left and max_samples are their differences. R4: file_exists=1 only if both strcmp()s report "
     "equality, and a changed name reaches digital_rf_create_hdf5_file before any H5Dwrite. R5: the three cadence tests "
-    "reject in both constructors. R6: writer/reader/listing name formats agree (regular-language inclusion). Does NOT "
-    "decide that the floor/ceil arithmetic is right.")
+    "reject in both constructors. R6: writer/reader/listing name formats agree (regular-language inclusion). R7: the two places "
+    "that cut a block at a file boundary (inside and after the block loop of digital_rf_create_rf_data_index) use the same linear "
+    "form (contradiction rule). Does NOT decide that the floor/ceil arithmetic is right.")
 ASSUMPTIONS = ["clang's expression types are the types the compiler uses", "gmtime is a pure function of its argument"]
 FILES = [C_LIB, "python/digital_rf/digital_rf_hdf5.py", "python/digital_rf/list_drf.py"]
